@@ -67,22 +67,23 @@ func c08rMakeSlot(tag string) c08rSlot {
 		VersionKey: resolve.VersionKey{PackageKey: c05PK(c08rNames[target-1]), VersionType: resolve.Requirement, Version: spec}, Type: t}}
 }
 
-func VerifC08Resolve() {
-	lc := resolve.NewLocalClient()
-	ctx := context.Background()
-	root := c05VK("r", "1.0")
-	slots := map[resolve.VersionKey][]c08rSlot{}
+type c08rUniverse struct {
+	es    []c05Entry
+	root  resolve.VersionKey
+	slots map[resolve.VersionKey][]c08rSlot
+}
+
+func c08rBuild() *c08rUniverse {
+	u := &c08rUniverse{root: c05VK("r", "1.0"), slots: map[resolve.VersionKey][]c08rSlot{}}
 	var rr []resolve.RequirementVersion
-	seenT := map[int]bool{}
 	for s := 0; s < 3; s++ {
 		sl := c08rMakeSlot("r" + c08N[s])
 		if sl.has {
-			slots[root] = append(slots[root], sl)
+			u.slots[u.root] = append(u.slots[u.root], sl)
 			rr = append(rr, sl.req)
 		}
-		_ = seenT
 	}
-	lc.AddVersion(resolve.Version{VersionKey: root}, rr)
+	u.es = append(u.es, c05Entry{v: resolve.Version{VersionKey: u.root}, reqs: rr})
 	for pi, p := range c08rNames {
 		prev := byte(0)
 		for vi := 0; vi < vParam("nv"+c08N[pi]); vi++ {
@@ -98,12 +99,20 @@ func VerifC08Resolve() {
 			var reqs []resolve.RequirementVersion
 			sl := c08rMakeSlot("p" + c08N[pi] + c08N[vi])
 			if sl.has {
-				slots[vk] = append(slots[vk], sl)
+				u.slots[vk] = append(u.slots[vk], sl)
 				reqs = append(reqs, sl.req)
 			}
-			lc.AddVersion(resolve.Version{VersionKey: vk}, reqs)
+			u.es = append(u.es, c05Entry{v: resolve.Version{VersionKey: vk}, reqs: reqs})
 		}
 	}
+	return u
+}
+
+func VerifC08Resolve() {
+	u := c08rBuild()
+	lc := c05Client(u.es, false)
+	ctx := context.Background()
+	root, slots := u.root, u.slots
 	g, err := NewResolver(lc).Resolve(ctx, root)
 	if err != nil {
 		vCover(true, "resolution error")
